@@ -241,8 +241,8 @@ def build_multi_unit_calibration_layers(calibration_input_layer,
               output_min=output_min,
               output_max=output_max,
               kernel_initializer=kernel_initializer,
-              monotonicities=feature_config.monotonicity if isinstance(
-                  feature_config.monotonicity, list) else None,
+              monotonicities=list(feature_config.monotonicity) if isinstance(
+                  feature_config.monotonicity, (list, tuple)) else None,
               default_input_value=feature_config.default_value,
               split_outputs=(units > 1 and not output_single_tensor),
               dtype=dtype,
